@@ -289,6 +289,45 @@ def run(ctx):
                             job_rows.append((v, name, body, cid, f"call kw={kw} {vals}", reply[3] if reply else None))
                         except Exception:  # noqa: BLE001  (the _ezsp_frame row above reports it)
                             pass
+    # ---- history on one handler: the same command called twice with keywords, the second time with the keywords in another order
+    # and the values exchanged (so that the *sequence* of values is the one of the first call): each call sends its own arguments
+    for v in range(4, 15):
+        h = ezsplib.handler(v)
+        mod = importlib.import_module(f"bellows.ezsp.v{v}.commands")
+        n_sw = 0
+        for name, (cid, tx, rx) in mod.COMMANDS.items():
+            txf = ezsplib.schema_fields(tx)
+            if len(txf) < 2 or txf[0][0] == "<single>" or txf[0][2] != txf[1][2] or txf[0][2][0] != "u" or txf[0][2][1] != 1:
+                continue
+            if any(ezsplib.has(d, ("inv", "cond")) for _, _, d in txf):
+                continue
+            n_sw += 1
+            if n_sw > ctx.n(12, 60):
+                break
+            x, y = rng.randrange(1, 200), rng.randrange(1, 200)
+            if x == y:
+                y += 1
+            rest = [ezsplib.gen(d, rng, "rand", i == len(txf) - 3) for i, (_, _, d) in enumerate(txf[2:])]
+            restvals, data = [], b"".join(p[1] for p in rest)
+            try:
+                for _, tp, _ in txf[2:]:
+                    val, data = tp.deserialize(data)
+                    restvals.append(val)
+                (k1, t1, _), (k2, t2, _) = txf[0], txf[1]
+                rk = dict(zip([k for k, _, _ in txf[2:]], restvals))
+                tail = b"".join(p[1] for p in rest)
+                for a, b in ((x, y), (y, x)):
+                    h._seq = 7
+                    first = h._ezsp_frame(name, **{k1: t1.deserialize(bytes([a]))[0], k2: t2.deserialize(bytes([b]))[0]}, **rk)
+                    h._seq = 7
+                    # keywords in the other order; k2 now gets the value k1 had, and k1 the value k2 had
+                    second = h._ezsp_frame(name, **{k2: t2.deserialize(bytes([a]))[0], k1: t1.deserialize(bytes([b]))[0]}, **rk)
+                    want1 = ezsplib.spec_header(v, 7, cid) + bytes([a, b]) + tail
+                    want2 = ezsplib.spec_header(v, 7, cid) + bytes([b, a]) + tail
+                    rows.append(("tx", v, name, None, hx(first), hx(want1), f"keywords {k1}={a} {k2}={b}"))
+                    rows.append(("tx", v, name, None, hx(second), hx(want2), f"then, on the same handler, keywords {k2}={a} {k1}={b}"))
+            except Exception as e:  # noqa: BLE001
+                rows.append(("tx", v, name, None, f"raised:{type(e).__name__}", "no exception", "keyword calls with exchanged values"))
     # ---- scalar field types are transparent: the model lowers every enum / bitmap / integer type of n bytes to "n bytes, little
     # endian"; every such type that occurs anywhere in a schema (also inside structs and lists) must decode every wire value to
     # that number and encode it back to the same bytes (all 256 values of the one-byte types; members, extremes and random values
